@@ -30,7 +30,8 @@ Events(s) ==
     (IF Len(s.deps) < 2      \* measured: a third deposit gives 6*10^5 states / 8*10^6 transitions even with two withdrawals - beyond what E2 replays in the time allowed
     
      THEN {UserDeposit("u1", "u1", d, 2) : d \in Dens} \cup {UserDeposit("u2", "bad:space", "d1", 1), UserDeposit("u1", "u2", "d1", 4)}     \* a recipient of blanks: refunded, and the refund names it as the L2 sender
-          \cup {UserDepositD("u1", "u2", "d1", 2, h) : h \in {"hw", "hwf", "hu"}} ELSE {})
+          \cup {UserDepositD("u1", "u2", "d1", 2, h) : h \in {"hw", "hwf", "hu"}}
+          \cup {UserDepositD("u1", "bad:empty", "d1", 2, "hu")} ELSE {})          \* no recipient but a payload: the L1 must not take what the bridge cannot complete
     \cup {Relay(s, a, q) : a \in {"e1"}, q \in 1..Len(s.deps)}
     \cup (IF Len(s.deps) >= 1 THEN {Relay(s, "x", 1)} ELSE {})
     \cup (IF Len(s.wds) < (IF Thorough THEN 3 ELSE 2)
